@@ -1,6 +1,6 @@
 (* C02 -- returned utilities agree with the returned selection.  Statements only. *)
 From Coq Require Import ZArith List Bool.
-From V Require Import Base.OptOrder Model.Sel Model.PoolQuery Proofs.SelProofs Proofs.PoolProofs Proofs.SkeletonProofs.
+From V Require Import Base.OptOrder Model.Sel Model.PoolQuery Proofs.SelProofs Proofs.PoolProofs Proofs.SkeletonProofs Model.PoolLoops Proofs.PoolLoopsProofs.
 Import ListNotations.
 Open Scope Z_scope.
 
@@ -48,6 +48,34 @@ Proof.
   exact (skeleton_accepted lab c scores noises bs (conj Hl Hs) (cand_wf_all lab c Hc) Hn).
 Qed.
 Print Assumptions C02_skeleton_accepted.
+
+(* hand-written loops, numeric layer universally quantified: every row of CoreSet's greedy k-center
+   loop (any distance function, incl. the all-distances-zero branch) and of ProbCover's batch loop
+   (any edge matrix) has one column per sample, is NaN exactly at non-candidates and earlier picks,
+   and the pick attains the row maximum *)
+Theorem C02_coreset_loop_rows :
+  forall (d : nat -> nat -> Z) (w : nat) (mapping centers0 : list nat) (k : nat) (noises : list (list Z)),
+  (forall j, In j mapping -> ~ In j centers0) ->
+  NoDup mapping -> Forall (fun i => (i < w)%nat) mapping -> (k <= length mapping)%nat -> noises_ok w k noises ->
+  let t := coreset_loop d w mapping centers0 k noises in
+  forall i p row, nth_error t i = Some (p, row) ->
+  length row = w /\ (p < w)%nat /\
+  (forall j, (j < w)%nat -> (nth j row None = None <-> (~ In j mapping \/ In j (firstn i (map fst t))))) /\
+  exists v, nth p row None = Some v /\ nanmax row = Some v.
+Proof. intros d w mapping centers0 k noises H1 H2 H3 H4 H5 t i p row Hi. exact (coreset_rows d w mapping centers0 k noises H1 H2 H3 H4 H5 i (p, row) Hi). Qed.
+Print Assumptions C02_coreset_loop_rows.
+
+Theorem C02_probcover_loop_rows :
+  forall (cs : list nat) (n : nat) (edges : list (list bool)) (is_cand : list bool) (k : nat) (noises : list (list Z)),
+  NoDup cs -> Forall (fun i => (i < n)%nat) cs -> (k <= length cs)%nat ->
+  length is_cand = n -> (forall j, (j < n)%nat -> nth j is_cand false = memb j cs) -> noises_ok n k noises ->
+  let t := probcover_loop edges is_cand k noises in
+  forall i p row, nth_error t i = Some (p, row) ->
+  length row = n /\ (p < n)%nat /\
+  (forall j, (j < n)%nat -> (nth j row None = None <-> (~ In j cs \/ In j (firstn i (map fst t))))) /\
+  exists v, nth p row None = Some v /\ nanmax row = Some v.
+Proof. intros cs n edges is_cand k noises H1 H2 H3 H4 H5 H6 t i p row Hi. exact (probcover_rows cs n edges is_cand k noises H1 H2 H3 H4 H5 H6 i (p, row) Hi). Qed.
+Print Assumptions C02_probcover_loop_rows.
 
 (* rows built with one tie-break and winners re-derived with another one (the
    BatchBALD pattern) allow a repeated pick: witness with two tied maxima *)
